@@ -282,3 +282,98 @@ package flamego
 //@   panics true
 //@   ensures r.chains == old(r.chains) + 1 || (len(f.befores) > 0 && r.chains == old(r.chains))
 //@   loop 0 invariant flameWF(f) && treeWF() && r.URL != nil && r.chains == old(r.chains)
+
+// ---------------------------------------------------------------------------
+// C18 Request accessors and cookies
+// ---------------------------------------------------------------------------
+
+//@ define reqOK(c *context) bool = c.request != nil && c.request.Request != nil && c.request.Request.URL != nil && c.responseWriter != nil
+
+// What the standard library answers (assumed, trusted/url.spec)
+//@ uninterpreted queryGet(u *url.URL, name string) string
+//@ uninterpreted atoiVal(s string) int
+//@ uninterpreted parseIntVal(s string, bits int) int64
+//@ uninterpreted parseBoolVal(s string) bool
+//@ uninterpreted parseFloatVal(s string) float64
+//@ uninterpreted queryEscape(s string) string
+//@ uninterpreted queryUnescape(s string) string
+//@ uninterpreted queryUnescapeOK(s string) bool
+
+// One rule for every accessor: the present value, else the caller's default, else the zero value.
+//@ define queryOr(c *context, name string, hasDefault bool, def string) string =
+//@     ite(queryGet(c.request.Request.URL, name) == "" && hasDefault, def, queryGet(c.request.Request.URL, name))
+
+//@ func (*context).Params
+//@   props C18
+//@   ensures result == c.params
+//@ func (*context).Param
+//@   props C18
+//@   ensures result == c.params[name]
+//@ func (*context).ParamInt
+//@   props C18
+//@   ensures result == atoiVal(c.params[name])
+//@ func (*context).ParamInt64
+//@   props C18
+//@   ensures result == parseIntVal(c.params[name], 64)
+
+//@ func (*context).Query
+//@   props C18
+//@   requires reqOK(c)
+//@   ensures result == queryOr(c, name, len(defaultVal) > 0, ite(len(defaultVal) > 0, defaultVal[0], ""))
+//@ func (*context).QueryBool
+//@   props C18
+//@   requires reqOK(c)
+//@   ensures result == ite(queryGet(c.request.Request.URL, name) == "" && len(defaultVal) > 0, defaultVal[0], parseBoolVal(queryGet(c.request.Request.URL, name)))
+//@ func (*context).QueryInt
+//@   props C18
+//@   requires reqOK(c)
+//@   ensures queryGet(c.request.Request.URL, name) == "" && len(defaultVal) > 0 ==> result == defaultVal[0]
+//@   ensures !(queryGet(c.request.Request.URL, name) == "" && len(defaultVal) > 0) ==> result == parseIntVal(queryGet(c.request.Request.URL, name), 0)
+//@ func (*context).QueryInt64
+//@   props C18
+//@   requires reqOK(c)
+//@   ensures result == ite(queryGet(c.request.Request.URL, name) == "" && len(defaultVal) > 0, defaultVal[0], parseIntVal(queryGet(c.request.Request.URL, name), 64))
+//@ func (*context).QueryFloat64
+//@   props C18
+//@   requires reqOK(c)
+//@   ensures result == ite(queryGet(c.request.Request.URL, name) == "" && len(defaultVal) > 0, defaultVal[0], parseFloatVal(queryGet(c.request.Request.URL, name)))
+//@ func (*context).QueryUnescape
+//@   props C18
+//@   requires reqOK(c)
+//@   ensures result == queryUnescape(queryOr(c, name, len(defaultVal) > 0, ite(len(defaultVal) > 0, defaultVal[0], "")))
+
+// Cookies: written escaped, read back unescaped (raw if it cannot be unescaped)
+//@ define cookieDecode(raw string) string = ite(queryUnescapeOK(raw), queryUnescape(raw), raw)
+//@ lemma[C18] cookieRoundTrip: forall s string :: cookieDecode(queryEscape(s)) == s
+
+//@ uninterpreted trimSpace(s string) string
+//@ uninterpreted queryHas(u *url.URL, name string) bool
+//@ uninterpreted queryVals(u *url.URL, name string) []string
+//@ uninterpreted reqHasCookie(r *http.Request, name string) bool
+//@ uninterpreted reqCookieRaw(r *http.Request, name string) string
+//@ uninterpreted hdrOf(w http.ResponseWriter) http.Header
+
+//@ func (*context).QueryTrim
+//@   props C18
+//@   requires reqOK(c)
+//@   ensures result == trimSpace(queryOr(c, name, len(defaultVal) > 0, ite(len(defaultVal) > 0, defaultVal[0], "")))
+
+//@ func (*context).QueryStrings
+//@   props C18
+//@   requires reqOK(c)
+//@   ensures queryHas(c.request.Request.URL, name) ==> result == queryVals(c.request.Request.URL, name)
+//@   ensures !queryHas(c.request.Request.URL, name) && len(defaultVal) > 0 ==> result == defaultVal[0]
+//@   ensures !queryHas(c.request.Request.URL, name) && len(defaultVal) == 0 ==> len(result) == 0 && result != nil
+//@   loop 0 invariant forall key string :: visited(key) ==> key != name
+
+//@ func (*context).SetCookie
+//@   props C18
+//@   requires reqOK(c)
+//@   modifies hdrOf(c.responseWriter)[*]
+//@   assert before String#0: cookie.Value == queryEscape(old(cookie.Value))
+//@   ensures len(hdrOf(c.responseWriter)["Set-Cookie"]) == len(old(hdrOf(c.responseWriter)["Set-Cookie"])) + 1
+
+//@ func (*context).Cookie
+//@   props C18
+//@   requires reqOK(c)
+//@   ensures result == ite(reqHasCookie(c.request.Request, name), cookieDecode(reqCookieRaw(c.request.Request, name)), "")
